@@ -7,6 +7,14 @@ from . import coqbuild, veccorr, vecrun, vecgen
 from .vecgen import Cfg
 
 
+APPEND_ONE = ("push_back", "emplace_back", "push_back_rv", "resize", "insert", "append_n", "resize_v", "emplace", "insert_n", "append_nv",
+              "insert_rv", "append_range", "insert_range")
+
+
+ONE_NAMES = ("resize", "insert", "append_n", "resize_v", "emplace", "insert_n", "append_nv", "insert_rv", "append_range", "insert_range_fwd",
+             "insert_range_inp")
+
+
 def scripts(cfg, nmax):
     lines = []
     # (a) from empty, (b) after reserve(k), (c) after growing and shrink_to_fit, (d) inline SmallVector partly filled
@@ -22,6 +30,24 @@ def scripts(cfg, nmax):
         n = min(nmax, cfg.M - 12)
         for i in range(n):
             lines.append("%s 0 v%d" % (("push_back", "emplace_back", "push_back_rv")[i % 3], i % 50))
+        # the same, one element at a time through every other growing entry point (resize, insert / emplace at the end,
+        # append(1), insert(end, 1, v), one-element ranges): "has to grow without a prior reserve" is not only push_back
+        sz0 = {"empty": 0, "reserved": 0, "shrunk": 2, "partly": 2}[name]
+
+        def one(k, sz, v):
+            return ("resize 0 %d" % (sz + 1), "insert 0 %d %s" % (sz, v), "append_n 0 1", "resize_v 0 %d %s" % (sz + 1, v),
+                    "emplace 0 %d %s" % (sz, v), "insert_n 0 %d 1 %s" % (sz, v), "append_nv 0 1 %s" % v, "insert_rv 0 %d %s" % (sz, v),
+                    "append_range 0 fwd 7", "insert_range 0 %d fwd 7" % sz, "insert_range 0 %d inp 7" % sz)[k]
+        lines.append("H one.mixed.%s" % name)
+        lines += pre
+        for i in range(min(nmax // 2, cfg.M - 12)):
+            lines.append(one(i % 11, sz0 + i, "v%d" % (i % 50)))
+        if name in ("empty", "shrunk"):     # and each entry point on its own
+            for k in range(11):
+                lines.append("H one.%s.%s" % (ONE_NAMES[k], name))
+                lines += pre
+                for i in range(min(nmax // 4, cfg.M - 12)):
+                    lines.append(one(k, sz0 + i, "v%d" % (i % 50)))
         # reserve / shrink_to_fit facts on the way
         lines.append("H reserve.%s" % name)
         lines += pre
@@ -57,14 +83,14 @@ def check(report, tier):
                                  "%s: crash in history %s" % (name, h.hid))
                 found = True
                 continue
-            if h.hid.startswith("push."):
+            if h.hid.startswith(("push.", "one.")):
                 reallocs = 0
                 moved = 0
                 n = 0
                 size0 = None
                 for s in h.steps:
                     op = s.op.split(" ")[0]
-                    if op not in ("push_back", "emplace_back", "push_back_rv"):
+                    if op not in APPEND_ONE:
                         continue
                     c0 = s.conts[0].split(";")
                     size = int(c0[0])
@@ -138,8 +164,9 @@ def check(report, tier):
         report.violation({"broken": broken, "no_failing_input_found": True}, "proof obligations of C18 no longer check: " + "; ".join(broken)[:1200], True)
     report.coverage.update({
         "evaluations": evals, "distinct_nontrivial": len(distinct),
-        "rule": "every prefix length n of %d successive appends (push_back / emplace_back / push_back(T&&) alternating) from 4 starting states x %d dynamic "
-                "configurations; reserve/shrink_to_fit sequences; distinct = (configuration, history, number of reallocations so far) resp. (configuration, op, class)" % (nmax, len(names)),
+        "rule": "every prefix length n of %d successive appends (push_back / emplace_back / push_back(T&&) alternating) and of %d one-element appends "
+                "through the other growing entry points (resize, resize(n, v), insert / emplace / insert(T&&) at end(), append(1), append(1, v), "
+                "insert(end(), 1, v), one-element forward / input ranges; mixed and each on its own, %d appends) from 4 starting states x %d dynamic configurations; reserve/shrink_to_fit sequences; distinct = (configuration, history, number of reallocations so far) resp. (configuration, op, class)" % (nmax, nmax // 2, nmax // 4, len(names)),
         "samples": samples, "worst_case_reallocations": {"reallocations": worst[0], "n": worst[1]},
         "traces_validated_against_impl": cnt["histories_compared"], "correspondence_steps_compared": cnt["steps_compared"],
         "correspondence_differences": len(rel), "trusted_base": coqbuild.TRUSTED_BASE, "exhaustive": False,
